@@ -4,7 +4,7 @@ and seeded/*/meta.json (independently written changes)."""
 import json, re, glob, os
 idx={m['name']:m for m in json.load(open('/verif/mutants/index.json'))}
 res={}
-for line in open('/verif/work/mutants/results.txt'):
+for line in open('/verif/seeded/results/lane_results.txt'):
     m=re.match(r'mutants/(\S+)\.diff tier=(\S+) caught:\[(.*?)\] silent:\[(.*?)\] infra:\[(.*?)\]',line)
     if m and m.group(1) in idx: res[m.group(1)]=(m.group(3).split(),m.group(4).split(),m.group(5).split())
 print("| hand-written mutant (mutants/<name>.diff) | file | checks run | caught by | silent |")
